@@ -379,7 +379,12 @@ def explore (c : Cfg) (fuel : Nat) : Nat → State → List Tid → List (List T
 /-! ## Part 4: left-recursion mode -/
 namespace LR
 
-/-- `Forward.parseImpl` (core.py:5691-5737) with `do_actions=True` at `loc 0` for a Forward whose body is a
+/-- (Line numbers as of /repo 16175de; re-checked against 9a7c23f: the SUCCESS path below is unchanged. That commit
+    added, on the path "body fails before any match" only, `memo[peek_key] = (prev_loc, copy of exception)` and
+    `memo[act_key] = memo[peek_key]` before re-raising, and makes a memo hit on an exception raise a copy. The
+    failing path is not part of this machine — the witnesses use inputs on which the body succeeds — its events are
+    covered by trace validation against `evStep` only, in the same-input LR leg.)
+    `Forward.parseImpl` (core.py:5691-5737) with `do_actions=True` at `loc 0` for a Forward whose body is a
     terminal (its own parse does not touch shared state and yields `bodyVal` = a value determined by the
     thread's INPUT), preceded by `reset_cache()`. Program counter = position in the event order:
       0 acqP 1 cclear 2 mclear 3 relP                       reset_cache core.py:1031-1037
